@@ -1,0 +1,11 @@
+//go:build !verif
+
+// Package verifhook provides named hook points for the verification harness
+// (/verif). Without the "verif" build tag every function is an empty stub.
+package verifhook
+
+// Point is a no-op without the verif build tag.
+func Point(name string, args ...any) {}
+
+// Enabled reports whether hooks are compiled in.
+const Enabled = false
